@@ -24,6 +24,7 @@ import (
 	"encoding/json"
 	"fmt"
 	"os"
+	"sort"
 	"time"
 
 	g "github.com/zenon-network/go-zenon/chain/genesis/mock"
@@ -43,6 +44,8 @@ const (
 var featNames = []string{"htlc", "bridge-liquidity", "accelerator"}
 var implemented = []*types.ImplementedSpork{types.HtlcSpork, types.BridgeAndLiquiditySpork, types.AcceleratorSpork}
 var defaultIds = []types.Hash{types.HtlcSpork.SporkId, types.BridgeAndLiquiditySpork.SporkId, types.AcceleratorSpork.SporkId}
+
+const keyCumulative = "C17:regime-table-of-one-spork-enables-methods-of-unenforced-spork"
 
 // rank in the fixed order in which vm/embedded/embedded.go consults the sporks (only used to attribute a violation to
 // its root cause, never to decide whether something is a violation)
@@ -121,6 +124,12 @@ func items(tier string) []item {
 		spacings = []int{1, 2, 4}
 		revs = []bool{false, true}
 	}
+	// a single spork on the chain (the minimal histories), then all three in every order
+	for _, f := range []int{fHTLC, fBL, fACC} {
+		for _, mode := range []string{"live", "lag"} {
+			out = append(out, item{Kind: "gate", Order: []int{f}, Spacing: 4, Mode: mode})
+		}
+	}
 	for _, o := range orders {
 		for _, rev := range revs {
 			for _, sp := range spacings {
@@ -186,6 +195,15 @@ func run(c *xs.Ctx, r *xs.Result) {
 	}
 }
 
+func isReplay() bool {
+	for _, a := range os.Args {
+		if a == "--replay" {
+			return true
+		}
+	}
+	return false
+}
+
 func init() {
 	if os.Getenv(childEnv) != "" {
 		// a child of the halt family: never reaches xs.Main
@@ -220,8 +238,23 @@ func init() {
 			ev.Coverage["transitions"] = m.Counters["transitions"]
 			ev.Coverage["traces_validated_against_impl"] = m.Counters["executions"]
 			ev.Coverage["explanation"] = "states = (execution configuration, chain height) pairs at which the oracle was evaluated; transitions = operations executed on real nodes (submitted/forged blocks, momentums produced, deliveries to followers, child-process steps); traces = executions (one per configuration)"
-			if m.Incomplete {
+			for _, set := range []string{"cumulative_table_manifestations", "receive_classes", "frontier_after_halt", "halt_cases"} {
+				var l []string
+				for e := range m.Sets[set] {
+					l = append(l, e)
+				}
+				sort.Strings(l)
+				ev.Coverage["list_"+set] = l
+			}
+			if m.Incomplete || isReplay() {
 				return
+			}
+			// A violation other than the table-composition one ends its execution early (the rest of that execution would be
+			// judged against a model the node has already left), so the counters below are only guaranteed without one.
+			for _, v := range m.Violations {
+				if v.Key != keyCumulative {
+					return
+				}
 			}
 			// vacuity guards
 			need := []string{
